@@ -13,7 +13,7 @@ PROPERTY = 'C12'
 RULE = (
     'the real Reactor/Peer on a virtual clock; negotiated hold time H from (our hold-time, peer OPEN hold time) over {0,3,4,9,30,90,65535}; '
     'remote behaviour after establishment = drawn sequence of (gap, KEEPALIVE | UPDATE | nothing) with gaps around H and H/3, bursts and long silences; '
-    'OPEN withheld for openwait +- 2 s; write-stall: one outbound UPDATE write blocks for 1-3 H of virtual time while the remote keeps sending every H/3..H-1.5 s (the session must survive, then expire H after the remote falls silent). Oracle over virtual timestamps on the transport. Non-trivial = some gap within +-3 s of H or H/3, or H = 0, or the OPEN is withheld'
+    'OPEN withheld for openwait +- 2 s; long-batch: 40-150 routes with distinct attributes sent under `rate-limit` (one UPDATE per loop iteration, several H/3 long) while the remote keeps sending; write-stall: one outbound UPDATE write blocks for 1-3 H of virtual time while the remote keeps sending every H/3..H-1.5 s (the session must survive, then expire H after the remote falls silent). Oracle over virtual timestamps on the transport. Non-trivial = some gap within +-3 s of H or H/3, or H = 0, or the OPEN is withheld'
 )
 ASSUMPTIONS = [
     'time only advances through the virtual clock: starvation of the timers by CPU-bound work cannot be observed here; a blocked outbound write is simulated by a virtual-time wait inside Connection.writer_async',
@@ -31,8 +31,8 @@ def cases(draw):
     ours = draw(st.sampled_from(HOLDS_OURS))
     peer = draw(st.sampled_from(HOLDS_PEER))
     h = min(ours, peer)
-    mode = draw(st.sampled_from(['established', 'established', 'established', 'open-withheld', 'write-stall']))
-    if mode == 'write-stall' and h == 0:
+    mode = draw(st.sampled_from(['long-batch', 'write-stall', 'open-withheld', 'established', 'established', 'established']))
+    if mode in ('write-stall', 'long-batch') and h == 0:
         mode = 'established'
     openwait = draw(st.sampled_from([3, 5, 10]))
     steps = []
@@ -50,6 +50,9 @@ def cases(draw):
             )
             steps.append([round(gap, 2), kind])
         tail = draw(st.sampled_from(['silence', 'silence', 'stay']))
+    elif mode == 'long-batch':
+        # an outbound batch that takes several H/3 to send (rate-limit: one UPDATE per loop iteration): KEEPALIVEs are due in between
+        return {'ours': ours, 'peer': peer, 'mode': mode, 'openwait': openwait, 'delay_open': 1.0, 'steps': [], 'tail': 'silence', 'routes': draw(st.sampled_from([40, 80, 150])), 'period': round(max(0.5, h / 3.0), 2)}
     elif mode == 'write-stall':
         # one outbound UPDATE write blocks for longer than H (the remote's window is closed) while the remote keeps sending
         tail = 'silence'
@@ -63,6 +66,9 @@ def cases(draw):
 
 def config(case: dict) -> str:
     body = ''
+    if case['mode'] == 'long-batch':
+        routes = '\n'.join(f'    route 61.{i // 250}.{i % 250}.0/24 next-hop 1.2.3.4 med {i + 1};' for i in range(case['routes']))
+        return exa.neighbor_text(families=['ipv4 unicast'], hold=case['ours'], capability={'asn4': 'enable', 'route-refresh': 'enable'}, extra='  rate-limit 100;', body='\n  static {\n' + routes + '\n  }')
     if case['mode'] == 'write-stall':
         body = '\n  static {\n    route 60.0.0.0/24 next-hop 1.2.3.4;\n    route 60.0.1.0/24 next-hop 1.2.3.4 med 5;\n  }'
     return exa.neighbor_text(families=['ipv4 unicast'], hold=case['ours'], capability={'asn4': 'enable', 'route-refresh': 'enable'}, body=body)
@@ -110,6 +116,17 @@ def check(case: dict) -> dict:
                     for _ in range(5):
                         await r.send_msg(codec.KEEPALIVE)
                 arrivals.append(loop.time())
+            if case['mode'] == 'long-batch':
+                # the remote keeps the session alive until the batch and its End-of-RIB are out (or 60 s), then falls silent
+                while loop.time() < t_est + 60.0 and r.closed_at is None:
+                    await hn.sleep(case['period'])
+                    if r.closed_at is not None:
+                        break
+                    await r.send_msg(codec.KEEPALIVE)
+                    arrivals.append(loop.time())
+                    updates = [t for t, ty, _ in r.messages if ty == 2]
+                    if len(updates) > case['routes'] and loop.time() - updates[-1] > 2 * case['period']:
+                        break
             if case['mode'] == 'write-stall':
                 # the remote is never silent for H while the write is blocked, and for a while after it went through
                 until = t_est + float(case['stall']) + 2 * h
@@ -227,6 +244,11 @@ def check(case: dict) -> dict:
         classes.append('hold-expired')
     if case['tail'] == 'stay':
         classes.append('kept-alive')
+    if case['mode'] == 'long-batch':
+        ups = [t for t, ty, _ in msgs if ty == 2]
+        span = (ups[-1] - ups[0]) if len(ups) > 1 else 0.0
+        classes.append('outbound-batch-longer-than-H/3' if span > h / 3.0 else 'outbound-batch-short')
+        nontrivial = span > h / 3.0
     if case['mode'] == 'write-stall':
         if not stalls:
             return {'nontrivial': False, 'classes': classes + ['write-stall:no-update-written']}
